@@ -5,6 +5,8 @@ CONSTANTS
   NChunks = 3
   AutoChoices = {{"P1"}}
   HwChoices = {{"P2"}}
+  NoDefChoices = {{}}
+  CfgVals = {"v1"}
   Faults = {"crash", "ioerror"}
   Corruptions = {}
   Dev = {}
@@ -14,9 +16,11 @@ CONSTANTS
   MaxFaults = 1
   MaxStarts = 2
   MaxCorrupt = 0
+  MaxOther = 0
   FirstCfgs = {0}
   StartCfgs = {0, 1}
-  CfgVals = {"v1"}
+  CfgKinds = {"value"}
+  Vias = {"set", "read"}
 CONSTRAINT Bound
 INVARIANT Emit1
 CHECK_DEADLOCK FALSE
